@@ -318,19 +318,29 @@ def _worker_run(case):
     out = {"obs": None, "oracle": [], "err": None}
     signal.alarm(prop.case_timeout)
     try:
-        out["obs"] = prop.run_impl(case)
+        try:
+            out["obs"] = prop.run_impl(case)
+        except CaseTimeout:
+            # a loaded machine can trip the alarm: only a case that also exceeds six times the budget
+            # when retried counts as non-terminating
+            signal.alarm(prop.case_timeout * 6)
+            out["obs"] = prop.run_impl(case)
     except CaseTimeout:
         out["obs"] = {"_timeout": True}
-        out["oracle"].append({"clause": "terminates", "detail": "run_impl exceeded %ds" % prop.case_timeout})
+        out["oracle"].append({"clause": "terminates", "detail": "run_impl exceeded %ds twice (second try %ds)" % (prop.case_timeout, prop.case_timeout * 6)})
     except Exception:
         out["err"] = "run_impl crashed: " + traceback.format_exc()[-1500:]
     finally:
         signal.alarm(0)
     signal.alarm(prop.case_timeout)
     try:
-        out["oracle"].extend(prop.oracle(case) or [])
+        try:
+            out["oracle"].extend(prop.oracle(case) or [])
+        except CaseTimeout:
+            signal.alarm(prop.case_timeout * 6)
+            out["oracle"].extend(prop.oracle(case) or [])
     except CaseTimeout:
-        out["oracle"].append({"clause": "terminates", "detail": "oracle exceeded %ds" % prop.case_timeout})
+        out["oracle"].append({"clause": "terminates", "detail": "oracle exceeded %ds twice" % prop.case_timeout})
     except Exception:
         out["err"] = (out["err"] or "") + "oracle crashed: " + traceback.format_exc()[-1500:]
     finally:
